@@ -8,12 +8,15 @@ import "context"
 // element, terminal included.
 func vC04Ref(L int) {
 	op := &vCatalog[vChoice("entry", len(vCatalog))]
-	if op.ref == nil || op.nsrc != 1 {
+	if op.ref == nil || op.nsrc > 1 {
 		vAssume(false)
 	}
-	in := vLegalScript("s", L)
+	var in []vStep
+	if op.nsrc == 1 {
+		in = vLegalScript("s", L)
+	}
 	p := &vProbe{name: "src"}
-	hot := vChoice("hot", 2) == 1
+	hot := op.nsrc == 1 && vChoice("hot", 2) == 1
 	if !hot {
 		p.cold = true
 		p.script = in
